@@ -75,6 +75,12 @@ def init (c : Cfg α) : State α :=
   { total := 0, since := 0, drift := .none, target := c.target0, sd := c.sd0,
     sh := zero, sl := zero, hist := [] }
 
+/-- `CUSUM.reset()` called by the user between updates: the epoch counter, the drift state and the
+    two cumulative sums restart; `target` / `sd_hat` and the retained stream are NOT touched (the
+    re-estimation belongs to the update that follows an alarm, `prep`) -/
+def reset (s : State α) : State α :=
+  { s with since := 0, drift := .none, sh := zero, sl := zero }
+
 /-- start of `update` when the previous update alarmed: re-estimate `target`, `sd_hat` from the
     last `burn_in` observations of the whole stream, then `reset()` -/
 def prep (c : Cfg α) (s : State α) : State α :=
